@@ -15,7 +15,33 @@ var (
 	fns   = map[string]func(){}
 	hits  = map[string]*atomic.Uint64{}
 	armed atomic.Bool
+	dfns  = map[string]func(args ...any){}
 )
+
+// SetData installs a data observer for the named point (nil removes it).
+func SetData(name string, fn func(args ...any)) {
+	mx.Lock()
+	defer mx.Unlock()
+	if fn == nil {
+		delete(dfns, name)
+	} else {
+		dfns[name] = fn
+	}
+	armed.Store(true)
+}
+
+// Data passes values to the observer installed for name, if any.
+func Data(name string, args ...any) {
+	if !armed.Load() {
+		return
+	}
+	mx.RLock()
+	fn := dfns[name]
+	mx.RUnlock()
+	if fn != nil {
+		fn(args...)
+	}
+}
 
 // Set installs fn for the named point (nil removes it).
 func Set(name string, fn func()) {
@@ -47,6 +73,7 @@ func Clear() {
 	mx.Lock()
 	defer mx.Unlock()
 	fns = map[string]func(){}
+	dfns = map[string]func(args ...any){}
 	hits = map[string]*atomic.Uint64{}
 	armed.Store(false)
 }
